@@ -78,14 +78,14 @@ def build_flow(cfg, idx=0):
     if body or cfg["method"] in ("POST", "PUT", "PATCH"):
         hdrs.append((b"Content-Length" if h1 else b"content-length", str(len(body)).encode()))
     req = http.Request(host, port, cfg["method"].encode(), scheme.encode(), b"" if h1 else hostval.encode(), path.encode(), ver.encode(),
-                       http.Headers(hdrs), body, None, 1000.0 + idx, 1000.5 + idx)
+                       http.Headers(hdrs), body, None, 1000.0 + cfg.get("t0", idx), 1000.5 + cfg.get("t0", idx))
     decoded, extra = RESP_BODIES[cfg["resp_body"]]
     rh = [(k, v) for k, v in extra] + list(cfg["resp_fields"])
     coding = dict((k.lower(), v) for k, v in extra).get("content-encoding")
     raw = netenc.encode(decoded, coding) if coding else decoded
     rh.append(("Content-Length", str(len(raw))))
     resp = http.Response(ver.encode(), cfg["status"], b"" if not h1 else http.status_codes.RESPONSES.get(cfg["status"], "").encode(),
-                         http.Headers([(k.encode() if h1 else k.lower().encode(), v.encode()) for k, v in rh]), raw, None, 1001.0 + idx, 1001.5 + idx)
+                         http.Headers([(k.encode() if h1 else k.lower().encode(), v.encode()) for k, v in rh]), raw, None, 1001.0 + cfg.get("t0", idx), 1001.5 + cfg.get("t0", idx))
     f = tflow.tflow(req=req, resp=resp)
     f.id = f"flow{idx}"
     return f
@@ -218,6 +218,12 @@ def h_two_flows(X):
         cfgs.append(cfg)
     if n == 2:
         X.reach("two-flows")
+        # the order of the file is the order of the exported list, whatever the start times say
+        # (HTTP/2 multiplexing, a user-chosen order): the later-listed flow may have started first or at the same instant
+        order = X.choose("start_times", ["ascending", "equal", "descending"])
+        cfgs[0]["t0"], cfgs[1]["t0"] = {"ascending": (0, 1), "equal": (0, 0), "descending": (5, 0)}[order]
+        if order == "descending":
+            X.reach("listed-order-differs-from-start-order")
     run(X, cfgs)
 
 
@@ -245,9 +251,9 @@ def obligations(tier):
                     "(duplicates included); request fixed (GET http://example.com/)",
              encoded=ENCODED, must_reach=["end", "base64-export"], parallel_depth=3),
         Symx("flow-order", h_two_flows,
-             bounds=f"1-2 flows per file, each: GET without body / POST with text body x status [200,404] x response body {list(RESP_BODIES)} (flow i uses URL i); "
+             bounds=f"1-2 flows per file, each: GET without body / POST with text body x status [200,404] x response body {list(RESP_BODIES)} (flow i uses URL i), start times ascending / equal / descending in list order; "
                     "the i-th imported flow must equal the i-th exported flow",
-             encoded=ENCODED, must_reach=["end", "two-flows"], parallel_depth=3),
+             encoded=ENCODED, must_reach=["end", "two-flows", "listed-order-differs-from-start-order"], parallel_depth=3),
     ]
     if tier != "quick":
         obs.append(Symx("cross-product", h_cross,
